@@ -36,7 +36,7 @@ describe(
         "unit_sampling returns the unit samples untouched; unbounded components are refused before sampling; the "
         "evaluation budget equals the number of samples."
     ),
-    decided=["14.1 seed routing", "14.2 integer-normalisation window", "14.3 physical samples are the image of the unit samples", "14.4 budget = number of samples", "14.6 block size of the Sobol indices design per case", "14.7 named samples in design-space order", "14.8 bounds edits invalidate the cached normalisation (rule groups of C02)"],
+    decided=["14.1 seed routing", "14.2 integer-normalisation window", "14.3 physical samples are the image of the unit samples", "14.4 budget = number of samples", "14.6 block size of the Sobol indices design per case", "14.7 named samples in design-space order", "14.8 bounds edits invalidate the cached normalisation (rule groups of C02)", "14.1 global generators seeded unconditionally", "14.11 ParameterSpace image in variable order (rule group 19.2 of C19)"],
     not_decided=["third-party generators return points in [0,1]^d", "exact counts of structured designs"],
     trusted=["scipy.stats.qmc, pyDOE, OpenTURNS generators are deterministic for a given seed"],
 )
